@@ -30,7 +30,37 @@ RANDOM_KEYS = ("init.random_initial_directions", "growing.ndirs_initial", "regre
 
 
 @st.composite
+def large_case(draw):
+    """Dimension classes beyond the shared generator (n = 33..40): size-dependent code paths (iterative / randomised linear-algebra
+    kernels chosen above a size threshold) exist only there. Short runs: the initial set plus a few iterations."""
+    n = draw(st.sampled_from([33, 36, 40]))
+    m = n + draw(st.integers(0, 2))
+    A = [[(1.0 + 0.1 * i if i == j else 0.0) + draw(st.sampled_from([0.0, 0.0, 0.0, 0.25, -0.5])) for j in range(n)] for i in range(m)]
+    c = {"n": n, "m": m, "fam": "lin", "A": A, "b": [draw(sc.g8) for _ in range(m)], "x0": [draw(sc.g8) for _ in range(n)], "lower": None,
+         "upper": None, "scaling": False, "npt": n + 1, "rhobeg": 0.5, "rhoend": 1e-3, "maxfun": n + 1 + draw(st.sampled_from([2, 4])),
+         "up": {}, "np_seed": 0, "tags": ["large-n"]}
+    kind = draw(st.sampled_from(["reg", "proj", "box", "plain"]))
+    if kind == "reg":
+        c["reg"] = {"kind": draw(st.sampled_from(["l1", "l2"])), "lam": 0.1, "conv": "closure"}
+        c["up"]["func_tol.max_iters"] = 25
+    elif kind == "proj":
+        z = np.array(c["x0"])
+        c["proj"] = [{"kind": "ball", "c": (z + 0.5).tolist(), "r": float(0.5 * np.sqrt(n) + 2.0)},
+                     {"kind": "half", "a": [1.0] * n, "beta": float(z.sum() + 3.0)}][:draw(st.integers(1, 2))]
+    elif kind == "box":
+        c["lower"] = [v - 1.5 for v in c["x0"]]
+        c["upper"] = [v + 2.5 for v in c["x0"]]
+    c["tags"].append("large-n:" + kind)
+    return c
+
+
+@st.composite
 def cases(draw):
+    if draw(st.integers(0, 79)) == 0:
+        c = draw(large_case())
+        c["x0_kind"] = "float"
+        c["seeds"] = [draw(st.integers(0, 2 ** 16)), draw(st.integers(0, 2 ** 16))]
+        return c
     c = draw(sc.scenarios(PROF))
     if draw(st.integers(0, 5)) == 0 and not c["scaling"] and not c.get("reg"):
         n = c["n"]
